@@ -371,7 +371,12 @@ def toast_pixel_for_point(depth, lat, lon, coordsys=ToastCoordinateSystem.ASTRON
     # that is closest to the input position.
 
     lons, lats = toast_tile_get_coords(tile)
-    dist2 = (lons - lon) ** 2 + (lats - lat) ** 2
+
+    # The tile longitudes can be on a different 2pi branch than the input;
+    # bring them to within pi of it. Longitude differences also need to be
+    # scaled to be comparable with latitude differences away from the equator.
+    lons = lon + (lons - lon + np.pi) % TWOPI - np.pi
+    dist2 = ((lons - lon) * np.cos(lat)) ** 2 + (lats - lat) ** 2
     min_y, min_x = np.unravel_index(np.argmin(dist2), (256, 256))
 
     # Now, identify a postage stamp around that best-fit pixel and fit a biquadratic
